@@ -11,7 +11,7 @@ reg("C14", "non-conditional simulations follow their model; basic generators hav
          "matern 0.5 unit sill), 1 Cholesky (MatrixSquareSymmetricSim dense inverse=false/true, sparse; CholeskyDense / "
          "CholeskySparse::evalSimulate with VH::simulateGaussian white noise), 1 simulateSPDE (Matern nu=1, 12x12 grid), 4 basic "
          "laws (12 laws in turn: uniform, gaussian, exponential, gamma beta=1 / beta!=1, poisson <16 / >=16, beta1, beta2, binomial, "
-         "int_uniform, gaussian_between_bounds). R realisations (turning bands 1200 / thorough 6000, FFT 800/4000, spectral "
+         "int_uniform / sampleInteger with a negative lower bound, gaussian_between_bounds). R realisations (turning bands 1200 / thorough 6000, FFT 800/4000, spectral "
          "2000/6000, Cholesky 1500/8000, SPDE 400/2000), seeds of the batches drawn from the case PRNG. simfft (reference), "
          "simuSpectral (reference) and simulateSPDE are run with a zero model mean, plus 200 (SPDE 100) realisations with a mean "
          "3-30 st. dev. away from 0 on which only the ensemble mean is tested. Statistics: ensemble mean per variable; variance; "
